@@ -6,6 +6,24 @@ the identical std chain (where std has one).
 request:  chain <ad,ad,..|-> <consumer> <input>
 scope:    in  = compared with std;   m = std has no such chain (does not type-check) or a documented
           exception applies: only implementation vs model is compared.
+
+CLOSURE CALLS.  For a bounded sample of the chains (all of depth <= 2, a few hundred deeper ones) every
+closure of the chain and of the consumer (and the loop body of for_each!) additionally records
+(position of its method, argument) in a call log, with identical closure text in the konst macro and in
+the std chain:
+  calls <ads> <consumer> <input>               value|[pos:arg;pos:arg;..]
+  hostile <ads> <consumer> <pos>:<arg> <input> the closure of method <pos> panics when called on <arg>:
+                                               panic|[calls up to and including that one], or as `calls`
+Methods are numbered from 0 = copied(); the consumer is the last one.  Poison points of `hostile` rows: calls
+that occur in only one of the two logs, one call of the std log, and one (closure, source value) pair chosen
+independently of both logs (a call that may or may not happen).
+On the std side of the calls/hostile programs the SOURCE is `NoTra(s.iter().copied())`, a plain forwarding
+wrapper (next / next_back / size_hint) that does not opt into std's internal TrustedRandomAccess shortcut.  With
+it std runs the generic, documented adapter code; without it the shortcut elides closure calls irregularly:
+`map(f).zip(short)` does not advance the first iterator once the second is exhausted (documented by std as
+"at most one time": the generic code does it once, as konst does), and `map(f).skip(1).take(2).fold(..)` calls
+`f` on the skipped element of `[0,5,6,7]` but not on that of `[0]`.  The value comparison (`chain` requests)
+keeps the plain slice iterator.
 """
 import os, random, itertools
 from vlib.progs import common
@@ -19,37 +37,72 @@ FMAPS = {"fm1": "|x| if x % 3 != 0 { Some(x + 1) } else { None }"}
 FLATS = {"f1": "|x| x..x + 2", "f2": "|x| 0..x.rem_euclid(3)"}
 ZIPS = {"z1": [7, 8], "z2": [10, 11, 12, 13, 14, 15, 16, 17]}
 
-# (token, from type, to type, konst text, std text)
+# closures as (parameter pattern, logged argument expression, body): the plain text is `pat body`, the logging
+# variant is `pat { cx.call(<position>, &(arg)); body }` (same text for konst and std)
+CLOS = {}
+for _k, _v in MAPS.items():
+    CLOS["map:" + _k] = ("|x|", "x", _v[4:])
+for _k in PREDS_REF:
+    CLOS["ref:" + _k] = ("|&x|", "x", PREDS_REF[_k][5:])
+    CLOS["val:" + _k] = ("|x|", "x", PREDS_VAL[_k][4:])
+CLOS["fm:fm1"] = ("|x|", "x", FMAPS["fm1"][4:])
+for _k, _v in FLATS.items():
+    CLOS["flat:" + _k] = ("|x|", "x", _v[4:])
+CLOS["map:mp"] = ("|(i, x)|", "(i, x)", "x * 10 + i as i64")
+CLOS["ref:pp"] = ("|&(i, x)|", "(i, x)", "i % 2 == 0")
+CLOS["map:mz"] = ("|(a, b)|", "(a, b)", "a * 100 + b")
+CLOS["map:mr1"] = ("|x|", "x", "x..x + 2")
+CLOS["fold:a1"] = ("|a, x|", "(a, x)", "(a * 3 + x).rem_euclid(1000003)")
+
+
+def clos_text(key, pos=None):
+    pat, arg, body = CLOS[key]
+    if pos is None:
+        return f"{pat} {body}"
+    return f"{pat} {{ cx.call({pos}, &({arg})); {body} }}"
+
+
+# (token, from type, to type, konst text, std text, closure key or None)
 def adapters():
     A = []
+    def cl(tok, f, t, method, key):
+        A.append((tok, f, t, f"{method}({clos_text(key)})", f".{method}({clos_text(key)})", (method, key)))
     for k, v in MAPS.items():
-        A.append((f"map:{k}", "I", "I", f"map({v})", f".map({v})"))
+        cl(f"map:{k}", "I", "I", "map", "map:" + k)
     for k in ("p1", "p2"):
-        A.append((f"filter:{k}", "I", "I", f"filter({PREDS_REF[k]})", f".filter({PREDS_REF[k]})"))
-    A.append(("filter_map:fm1", "I", "I", f"filter_map({FMAPS['fm1']})", f".filter_map({FMAPS['fm1']})"))
+        cl(f"filter:{k}", "I", "I", "filter", "ref:" + k)
+    cl("filter_map:fm1", "I", "I", "filter_map", "fm:fm1")
     for k, v in FLATS.items():
-        A.append((f"flat_map:{k}", "I", "I", f"flat_map({v})", f".flat_map({v})"))
+        cl(f"flat_map:{k}", "I", "I", "flat_map", "flat:" + k)
     for n in (0, 1, 2, 5):
         for t in "IPZR":
-            A.append((f"take:{n}", t, t, f"take({n})", f".take({n})"))
+            A.append((f"take:{n}", t, t, f"take({n})", f".take({n})", None))
     for n in (0, 1, 3):
         for t in "IPZ":
-            A.append((f"skip:{n}", t, t, f"skip({n})", f".skip({n})"))
-    A.append(("take_while:p3", "I", "I", f"take_while({PREDS_REF['p3']})", f".take_while({PREDS_REF['p3']})"))
-    A.append(("skip_while:p3", "I", "I", f"skip_while({PREDS_REF['p3']})", f".skip_while({PREDS_REF['p3']})"))
-    A.append(("skip_while:p1", "I", "I", f"skip_while({PREDS_REF['p1']})", f".skip_while({PREDS_REF['p1']})"))
-    A.append(("enumerate", "I", "P", "enumerate()", ".enumerate()"))
-    A.append(("map:mp", "P", "I", "map(|(i, x)| x * 10 + i as i64)", ".map(|(i, x)| x * 10 + i as i64)"))
-    A.append(("filter:pp", "P", "P", "filter(|&(i, _)| i % 2 == 0)", ".filter(|&(i, _)| i % 2 == 0)"))
+            A.append((f"skip:{n}", t, t, f"skip({n})", f".skip({n})", None))
+    cl("take_while:p3", "I", "I", "take_while", "ref:p3")
+    cl("skip_while:p3", "I", "I", "skip_while", "ref:p3")
+    cl("skip_while:p1", "I", "I", "skip_while", "ref:p1")
+    A.append(("enumerate", "I", "P", "enumerate()", ".enumerate()", None))
+    cl("map:mp", "P", "I", "map", "map:mp")
+    A.append(("filter:pp", "P", "P", "filter(|&(i, _)| i % 2 == 0)", ".filter(|&(i, _)| i % 2 == 0)", ("filter", "ref:pp")))
     for k, v in ZIPS.items():
         arr = ", ".join(f"{x}i64" for x in v)
-        A.append((f"zip:{k}", "I", "Z", f"zip(konst::slice::iter_copied(&[{arr}]))", f".zip([{arr}].into_iter())"))
-    A.append(("map:mz", "Z", "I", "map(|(a, b)| a * 100 + b)", ".map(|(a, b)| a * 100 + b)"))
-    A.append(("map:mr1", "I", "R", "map(|x| x..x + 2)", ".map(|x| x..x + 2)"))
-    A.append(("flatten", "R", "I", "flatten()", ".flatten()"))
+        A.append((f"zip:{k}", "I", "Z", f"zip(konst::slice::iter_copied(&[{arr}]))", f".zip([{arr}].into_iter())", None))
+    cl("map:mz", "Z", "I", "map", "map:mz")
+    cl("map:mr1", "I", "R", "map", "map:mr1")
+    A.append(("flatten", "R", "I", "flatten()", ".flatten()", None))
     for t in "IPZR":
-        A.append(("rev", t, t, "rev()", ".rev()"))
+        A.append(("rev", t, t, "rev()", ".rev()", None))
     return A
+
+
+def logged_text(a, pos):
+    """(konst text, std text) of adapter `a` with its closure logging its calls as position `pos`"""
+    if a[5] is None:
+        return a[3], a[4]
+    method, key = a[5]
+    return f"{method}({clos_text(key, pos)})", f".{method}({clos_text(key, pos)})"
 
 
 ADS = adapters()
@@ -79,6 +132,43 @@ BIG_CONSUMERS["position:p9"] = ("position:p9", "position(|x| x == 9)", ".positio
 BIG_CONSUMERS["rposition:p9"] = ("rposition:p9", "rposition(|x| x == 9)", ".rev().position(|x| x == 9)", True)
 for _n in (299, 65536, 70001):
     BIG_CONSUMERS[f"nth:{_n}"] = (f"nth:{_n}", f"nth({_n})", f".nth({_n})", False)
+
+
+CONS_CLOS = {"all": "val", "any": "val", "find": "ref", "find_map": "fm", "rfind": "ref",
+             "position": "val", "rposition": "val"}
+
+
+def cons_logged(c, pos):
+    """(konst text, std text) of consumer `c` with its closure logging its calls as position `pos`"""
+    tok, kt, st, rv = c
+    name, _, arg = tok.partition(":")
+    if name in CONS_CLOS:
+        t = clos_text(CONS_CLOS[name] + ":" + arg, pos)
+        if name == "rposition":
+            return f"rposition({t})", f".rev().position({t})"
+        return f"{name}({t})", f".{name}({t})"
+    if name in ("fold", "rfold"):
+        t = clos_text("fold:" + arg, pos)
+        return f"{name}(1i64, {t})", f".{name}(1i64, {t})"
+    return kt, st
+
+
+def logged_chain_text(c):
+    """(konst method list, std iterator expression) of chain `c` with logging closures"""
+    ktext, sexpr = "", "NoTra(s.iter().copied())"
+    for i, a in enumerate(c):
+        k, st = logged_text(a, i + 1)
+        ktext += ", " + k
+        sexpr += st
+    return ktext, sexpr
+
+
+def ipositions(c, cons_tok):
+    """positions of the closures whose argument is a plain source-typed number"""
+    out = [i + 1 for i, a in enumerate(c) if a[5] is not None and a[1] == "I"]
+    if cons_tok == "forEach" or cons_tok.split(":")[0] in CONS_CLOS:
+        out.append(len(c) + 1)
+    return out
 
 
 def std_caps(chain):
@@ -212,6 +302,30 @@ BIG = [
 ]
 
 
+# REGRESSION corpus of the closure-call programs (emitted and run FIRST, independent of tier and seed):
+# the shapes of repaired defects, with the poisoned calls that made them visible
+#   F21 (fixed by 9827f8a): a closure-taking method before take(n) ran on one item more than in std
+#   F22 (fixed by 7ecb606): with take(0) after flat_map/flatten the methods before it ran on the first item
+# (chain tokens, consumer, inputs, poisoned calls `pos:arg`)
+REGRESSIONS = [
+    (["map:m2", "take:2"], "fold:a1", [[1, 2, 0], [0, 0, 0], [3]], ["1:0"]),          # F21: map(|x| 10 / x), take(2) over [1,2,0]
+    (["map:m1", "take:1"], "forEach", [[0, 0], [1, 2, 3]], ["1:0", "1:2"]),
+    (["filter:p2", "take:0"], "count", [[0], [2, 3]], ["1:0", "1:2"]),
+    (["filter:p1", "take:1"], "next", [[0, 1, 2], [1, 0, 3, 2]], ["1:1", "1:3", "1:2"]),
+    (["filter_map:fm1", "take:1"], "find:p1", [[1, 0], [2, 2, 0]], ["1:0", "1:2"]),
+    (["take_while:p3", "take:2"], "all:p1", [[0, 0, 0], [2, 0, 5]], ["1:0", "1:5"]),
+    (["skip_while:p3", "take:1"], "position:p2", [[0, 5, 1], [5, 7]], ["1:5", "1:7"]),
+    (["flat_map:f2", "take:2"], "any:p2", [[1, 1, 0], [2, 0, 2]], ["1:0", "1:2"]),
+    (["map:m1", "skip:1", "take:1", "map:m2"], "nth:1", [[0, 1, 2, 3]], ["1:2", "1:3"]),
+    (["flat_map:f1", "take:0"], "count", [[1, 2], [0]], ["1:1", "1:0"]),                  # F22
+    (["map:m1", "flat_map:f1", "take:0"], "fold:a1", [[1, 2]], ["1:1", "2:3"]),
+    (["map:mr1", "flatten", "take:0"], "forEach", [[1, 2]], ["1:1"]),
+    (["filter:p2", "flat_map:f2", "map:m1", "take:0"], "next", [[0, 3, 2]], ["1:0", "1:3", "2:3"]),
+    (["flat_map:f1", "flat_map:f2", "take:0"], "count", [[1, 2]], ["1:1", "2:1"]),
+    (["flat_map:f1", "take:1"], "count", [[1, 2, 3]], ["1:2", "1:3"]),
+]
+
+
 def scope_of(toks, cons_tok, cons_rev):
     """returns (scope, has_std)"""
     has_rev = "rev" in toks or cons_rev
@@ -304,14 +418,143 @@ def generate(ctx):
             body_s = f"{build} let s: &[i64] = &v; show(s.iter().copied(){stext}{st})"
         funcs.append((f"chain {desc} {ctok}", "let _ = s; " + body_k, "let _ = s; " + body_s, sc, "CONST:" + inp_s))
 
+    # closure-call variants (bounded sample: rustc-bound)
+    lrng = random.Random(seed + 101)
+    n_deep = 160 if tier == "quick" else 1000
+    lchains = chains[:exhaustive] + lrng.sample(chains[exhaustive:], min(n_deep, len(chains) - exhaustive))
+    ntiny = len([x for x in small if len(x) <= 2])
+    extra_in = [[lrng.choice([0, 1, 2, 3, 5, 7]) for _ in range(lrng.choice([3, 4, 5, 6, 7]))] for _ in range(16)]
+    lfew = [x for x in small if len(x) <= 1] + few[ntiny:] + extra_in
+    small3 = [x for x in small if len(x) <= 3] + extra_in
+    lfuncs = []   # (request tail, konst body, std body or None, scope, inputs, positions of number-typed closures)
+    for c in lchains:
+        toks = [a[0] for a in c]
+        caps = std_caps(toks)
+        desc = ",".join(toks) if toks else "-"
+        ktext, sexpr = logged_chain_text(c)
+        cpos = len(c) + 1
+        std_ok = caps is not None
+        use_inputs = "SMALL3" if len(c) <= 1 else "LFEW"
+        sc = scope_of(toks, "forEach", False)
+        body_k = f"let mut out: Vec<i64> = Vec::new(); konst::iter::for_each!{{x in s, copied(){ktext} => cx.call({cpos}, &x); out.push(x);}} items(&out)"
+        body_s = f"let mut out: Vec<i64> = Vec::new(); for x in {sexpr} {{ cx.call({cpos}, &x); out.push(x); }} items(&out)"
+        lfuncs.append((f"{desc} forEach", body_k, body_s if std_ok else None, sc if std_ok else "m", use_inputs, ipositions(c, "forEach")))
+        conss = list(CONSUMERS) if len(c) <= 1 else lrng.sample(CONSUMERS, 2)
+        for cc in conss:
+            tok, kt, st, rv = cc
+            if toks.count("rev") + (1 if rv else 0) > 1:
+                continue
+            ok = std_ok
+            if ok and rv:
+                de, es = caps
+                if not de or (tok.startswith("rposition") and not es):
+                    ok = False
+            sc = scope_of(toks, tok, rv)
+            kt, st = cons_logged(cc, cpos)
+            lfuncs.append((f"{desc} {tok}", f"show(konst::iter::eval!(s, copied(){ktext}, {kt}))",
+                           f"show({sexpr}{st})" if ok else None, sc if ok else "m", use_inputs, ipositions(c, tok)))
+
+    # regression corpus (own binary, its rows come first)
+    by_tok0 = {}
+    for a in ADS:
+        by_tok0.setdefault(a[0], a)
+    cons_by_tok = {c[0]: c for c in CONSUMERS}
+    regfuncs = []
+    for toks, ctok, inps, pins in REGRESSIONS:
+        c = [by_tok0[t] for t in toks]
+        ktext, sexpr = logged_chain_text(c)
+        cpos = len(c) + 1
+        desc = ",".join(toks)
+        if ctok == "forEach":
+            bk = f"let mut out: Vec<i64> = Vec::new(); konst::iter::for_each!{{x in s, copied(){ktext} => cx.call({cpos}, &x); out.push(x);}} items(&out)"
+            bs = f"let mut out: Vec<i64> = Vec::new(); for x in {sexpr} {{ cx.call({cpos}, &x); out.push(x); }} items(&out)"
+        else:
+            kt, st = cons_logged(cons_by_tok[ctok], cpos)
+            bk = f"show(konst::iter::eval!(s, copied(){ktext}, {kt}))"
+            bs = f"show({sexpr}{st})"
+        regfuncs.append((f"{desc} {ctok}", bk, bs, scope_of(toks, ctok, False), inps, pins))
+
     # split into modules compiled in parallel
     nmod = 16
     mods = [[] for _ in range(nmod)]
     for i, f in enumerate(funcs):
         mods[i % nmod].append(f)
+    lmods = [[] for _ in range(nmod)]
+    for i, f in enumerate(lfuncs):
+        lmods[i % nmod].append(f)
     prelude = r'''
 #![allow(unused, clippy::all)]
 use std::fmt::Write as _;
+use std::cell::RefCell;
+use std::panic::{catch_unwind, AssertUnwindSafe};
+// ---- closure-call log ------------------------------------------------------------------------
+trait Enc { fn enc(&self) -> String; }
+impl Enc for i64 { fn enc(&self) -> String { format!("{}", self) } }
+impl Enc for (usize, i64) { fn enc(&self) -> String { format!("({},{})", self.0, self.1) } }
+impl Enc for (i64, i64) { fn enc(&self) -> String { format!("({},{})", self.0, self.1) } }
+struct Ctx { log: RefCell<Vec<String>>, hp: usize, hk: String }
+impl Ctx {
+    // called first thing in every closure body: record (method position, argument); panic if poisoned
+    fn call<T: Enc>(&self, pos: usize, a: &T) {
+        let e = a.enc();
+        let hit = pos == self.hp && e == self.hk;
+        self.log.borrow_mut().push(format!("{}:{}", pos, e));
+        if hit { panic!("poisoned closure call"); }
+    }
+}
+type LF = fn(&[i64], &Ctx) -> String;
+fn run(f: LF, s: &[i64], hp: usize, hk: &str) -> String {
+    let cx = Ctx { log: RefCell::new(Vec::new()), hp, hk: hk.to_string() };
+    let r = catch_unwind(AssertUnwindSafe(|| f(s, &cx)));
+    let log = cx.log.into_inner();
+    format!("{}|[{}]", match r { Ok(v) => v, Err(_) => "panic".to_string() }, log.join(";"))
+}
+fn log_of(r: &str) -> Vec<String> {
+    let l = &r[r.find('|').unwrap() + 2..r.len() - 1];
+    if l.is_empty() { vec![] } else { l.split(';').map(|x| x.to_string()).collect() }
+}
+fn both(req: &str, k: LF, st: Option<LF>, s: &[i64], sc: &str, ipos: &[usize], pins: &[&str]) {
+    let kr = run(k, s, usize::MAX, "");
+    let sr = st.map(|f| run(f, s, usize::MAX, ""));
+    println!("calls {} {}\t{}\t{}\t{}", req, inp_s(s), kr, sr.as_deref().unwrap_or("?"), sc);
+    let kl = log_of(&kr);
+    let sl = sr.as_ref().map(|r| log_of(r));
+    let mut cand: Vec<String> = pins.iter().map(|x| x.to_string()).collect();   // explicitly requested poisoned calls
+    let npin = cand.len();
+    if let Some(sl) = &sl {
+        // calls that occur (more often) in one log than in the other
+        let mut cnt: std::collections::BTreeMap<&str, i64> = std::collections::BTreeMap::new();
+        for e in kl.iter() { *cnt.entry(e).or_insert(0) += 1; }
+        for e in sl.iter() { *cnt.entry(e).or_insert(0) -= 1; }
+        for e in kl.iter().chain(sl.iter()) { if cnt[e.as_str()] != 0 && !cand.contains(e) && cand.len() < npin + 2 { cand.push(e.clone()); } }
+    }
+    let mut h: u64 = 0xcbf29ce484222325;
+    for b in req.bytes().chain(s.iter().map(|x| *x as u8)) { h = (h ^ b as u64).wrapping_mul(0x100000001b3); }
+    let base = sl.as_ref().unwrap_or(&kl);
+    if !base.is_empty() { let e = &base[(h % base.len() as u64) as usize]; if !cand.contains(e) { cand.push(e.clone()); } }
+    if !ipos.is_empty() && !s.is_empty() {
+        // a (closure, source value) pair chosen independently of both logs
+        let e = format!("{}:{}", ipos[((h >> 16) % ipos.len() as u64) as usize], s[((h >> 32) % s.len() as u64) as usize]);
+        if !cand.contains(&e) && cand.len() < npin + 3 { cand.push(e); }
+    }
+    for e in cand.iter() {
+        let (hp, hk) = e.split_once(':').unwrap();
+        let hp: usize = hp.parse().unwrap();
+        let kr = run(k, s, hp, hk);
+        let sr = st.map(|f| run(f, s, hp, hk));
+        println!("hostile {} {} {}\t{}\t{}\t{}", req, e, inp_s(s), kr, sr.as_deref().unwrap_or("?"), sc);
+    }
+}
+// the std source without the TrustedRandomAccess shortcut (see the module docstring)
+struct NoTra<I>(I);
+impl<I: Iterator> Iterator for NoTra<I> {
+    type Item = I::Item;
+    fn next(&mut self) -> Option<I::Item> { self.0.next() }
+    fn size_hint(&self) -> (usize, Option<usize>) { self.0.size_hint() }
+}
+impl<I: DoubleEndedIterator> DoubleEndedIterator for NoTra<I> { fn next_back(&mut self) -> Option<I::Item> { self.0.next_back() } }
+impl<I: ExactSizeIterator> ExactSizeIterator for NoTra<I> {}
+// ----------------------------------------------------------------------------------------------
 fn items(v: &[i64]) -> String { let mut s = String::from("["); for (i, x) in v.iter().enumerate() { if i > 0 { s.push(';'); } write!(s, "{}", x).unwrap(); } s.push(']'); s }
 trait Show { fn show(&self) -> String; }
 impl Show for bool { fn show(&self) -> String { if *self { "t".into() } else { "f".into() } } }
@@ -339,27 +582,55 @@ fn inp_s(v: &[i64]) -> String { items(v) }
             else:
                 var = "small" if inputs == "SMALL" else "few"
                 calls.append(f'    for s in {var}.iter() {{ println!("{req} {{}}\\t{{}}\\t{{}}\\t{sc}", inp_s(s), k_{fi}(s), s_{fi}(s)); }}')
+        for fi, (req, bk, bs, sc, inputs, ipos) in enumerate(lmods[mi]):
+            src.append(f"fn lk_{fi}(s: &[i64], cx: &Ctx) -> String {{ {bk} }}")
+            if bs is not None:
+                src.append(f"fn ls_{fi}(s: &[i64], cx: &Ctx) -> String {{ {bs} }}")
+            var = "small3" if inputs == "SMALL3" else "lfew"
+            sfn = f"Some(ls_{fi})" if bs is not None else "None"
+            calls.append(f'    for s in {var}.iter() {{ both("{req}", lk_{fi}, {sfn}, s, "{sc}", &{ipos}, &[]); }}')
         src.append("fn main() {")
+        src.append("    std::panic::set_hook(Box::new(|_| {}));")
         src.append(f'    let small = parse_inputs("{enc(small)}");')
         src.append(f'    let few = parse_inputs("{enc(few)}");')
+        src.append(f'    let small3 = parse_inputs("{enc(small3)}");')
+        src.append(f'    let lfew = parse_inputs("{enc(lfew)}");')
         src.extend(calls)
         src.append("}")
         p = os.path.join(d, f"m{mi}.rs")
         open(p, "w").write("\n".join(src))
         jobs.append((p, os.path.join(d, f"m{mi}"), "link"))
         bins.append(os.path.join(d, f"m{mi}"))
+    src = [prelude]
+    calls = []
+    for fi, (req, bk, bs, sc, inps, pins) in enumerate(regfuncs):
+        src.append(f"fn lk_{fi}(s: &[i64], cx: &Ctx) -> String {{ {bk} }}")
+        src.append(f"fn ls_{fi}(s: &[i64], cx: &Ctx) -> String {{ {bs} }}")
+        pins_s = "[" + ", ".join('"%s"' % x for x in pins) + "]"
+        calls.append(f'    for s in parse_inputs("{enc(inps)}").iter() {{ both("{req}", lk_{fi}, Some(ls_{fi}), s, "{sc}", &[], &{pins_s}); }}')
+    src.append("fn main() {")
+    src.append("    std::panic::set_hook(Box::new(|_| {}));")
+    src.extend(calls)
+    src.append("}")
+    p = os.path.join(d, "mreg.rs")
+    open(p, "w").write("\n".join(src))
+    jobs.insert(0, (p, os.path.join(d, "mreg"), "link"))
+    bins.insert(0, os.path.join(d, "mreg"))
     res = common.compile_many(jobs)
     for (rc, err), j in zip(res, jobs):
         if rc != 0:
             raise RuntimeError(f"generated program {j[0]} does not compile against /repo: {err[:3000]}")
     tsv = os.path.join(d, "c10.tsv")
-    with open(tsv, "w") as out:
-        for b in bins:
-            rc, so, se = common.run_bin(b, timeout=600)
+    import concurrent.futures
+    with open(tsv, "w") as out, concurrent.futures.ThreadPoolExecutor(max_workers=8) as ex:
+        for b, (rc, so, se) in zip(bins, ex.map(lambda b: common.run_bin(b, timeout=600), bins)):
             if rc != 0:
                 raise RuntimeError(f"{b} exited {rc}: {se[:2000]}")
             out.write(so)
     ctx["extra"]["programs"] = len(funcs)
+    ctx["extra"]["closure_call_programs"] = len(lfuncs)
+    ctx["extra"]["closure_call_chains"] = len(lchains)
+    ctx["extra"]["closure_call_regressions"] = len(regfuncs)
     ctx["extra"]["chains"] = len(chains)
     ctx["extra"]["chains_exhaustive_depth"] = 2
     ctx["extra"]["chains_exhaustive"] = exhaustive
